@@ -62,6 +62,23 @@ def run(tier, seed):
             accept(FL.render_filter_query(e, style), "well-typed filter expression")
     for t in GOOD_SHAPES:
         accept(t, "boundary shape")
+    # digits that are not ASCII are no numbers: never an index (so never one with a hidden leading zero), a slice bound or a number literal
+    for d in ("٠١", "١", "０１", "１", "٠"):
+        for text, what in ((f"$[{d}]", "index"), (f"$[0, {d}]", "index"), (f"$[{d}:]", "slice"), (f"$[:{d}]", "slice"), (f"$[::{d}]", "slice"), (f"$[?@.a == {d}]", "literal"), (f"$[?@.a == {d}.5]", "literal"), (f"$[?@[{d}] == 1]", "index")):
+            try:
+                p = env.compile(text)
+            except JSONPathError:
+                rec.ok(("non-ascii-digits", text))
+                continue
+            except Exception as e:  # noqa: BLE001
+                rec.fail(f"reject-kind:{text}", f"{text!r} is refused with {type(e).__name__}, not a JSONPath error", "sys.exit(2)")
+                continue
+            printed = str(p)
+            if what == "index" and ("'" + d + "'" in printed) and not any(ch.isdigit() and ch.isascii() for ch in printed.replace("0, ", "").replace("== 1", "")):
+                rec.ok(("non-ascii-digits-name", text))  # a bare member name (documented extension)
+            else:
+                rec.fail(f"reject:{text}", f"{text!r} is written with digits that are not ASCII; it must be refused or read as a member name, but compiles to {printed!r} (an index with a leading zero / a number the RFC grammar does not have)",
+                         f"import jsonpath\nfrom jsonpath.exceptions import JSONPathError\ntry:\n    p = jsonpath.compile({text!r})\nexcept JSONPathError as e:\n    print('refused:', e); sys.exit(0)\nprint('compiled to', str(p)); sys.exit(0 if {d!r} in str(p) else 1)")
     for t in BAD_SHAPES:
         reject(t, "malformed, leading zero, out of range or uncompared literal", classify_shape(t))
     for _ in range(n_bad):
